@@ -50,6 +50,16 @@ HARNESSES = [
          unwind=3, unwindset={"bs_ref.0": 8, "read_offset_tree.0": 10, "load_bits.0": 37, "harness_offset.0": 18, "pm2_ref_offset_table.0": 10, "build_tree.0": 34, "read_from_tree.0": 3},
          units=["lib/pm2_decoder.c:read_offset_tree", "lib/tree_decode.c:set_tree_single,read_from_tree"], timeout=200,
          bounds="every offset table with 5..8 classes, need flag 0/1, arbitrary alignment", stubs=[SPEC, "build_tree: capture stub"]),
+    # ---- capacity of the decoder's own tree arrays (real build_tree, real sizes)
+] + [
+    dict(name="pm2.tree.cap%d" % n, src="C04/pm2_cap.c", entry="harness_code", defines=["CAPN=%d" % n], rename_defs=BITS, unwind=34, unwindset={"bs_ref.0": 8},
+         units=["lib/pm2_decoder.c:LHAPM2Decoder.code_tree (size)", "lib/tree_decode.c:build_tree,expand_queue,add_codes_with_length,read_next_entry,read_from_tree"], timeout=300, mem_gb=4,
+         bounds="complete balanced code over %d symbols at any rotation of the symbol order, any symbol; CONCRETE tree shape" % n, stubs=[SPEC])
+    for n in (29, 31)
+] + [
+    dict(name="pm2.tree.cap.offset", src="C04/pm2_cap.c", entry="harness_offset", rename_defs=BITS, unwind=34, unwindset={"bs_ref.0": 8},
+         units=["lib/pm2_decoder.c:LHAPM2Decoder.offset_tree (size)", "lib/tree_decode.c:build_tree,read_from_tree"], timeout=300, mem_gb=4,
+         bounds="complete balanced code over the 8 offset classes at any rotation, any symbol", stubs=[SPEC]),
     # ---- H04.pm2.sched
     dict(name="pm2.sched.step", src="C04/pm2_sched.c", entry="harness_step", defines=["STEP_HARNESS"], rename_defs=SCHED, unwind=3,
          units=["lib/pm2_decoder.c:output_byte,rebuild_tree", "lib/pma_common.c:update_history_list"], timeout=300,
